@@ -15,6 +15,8 @@
 """
 import json
 import os
+import threading
+import time
 
 import vlib
 
@@ -24,13 +26,14 @@ TRACE = "GrouperTrace"
 
 # shape -> (MaxSteps, MaxForeign, MaxOwner) for the model check / the schedule export
 SHAPES = {
-    "quick": {"<<1>>": (6, 2, 1), "<<1,1>>": (7, 2, 1), "<<1,2>>": (7, 2, 1), "<<1,1,1>>": (8, 2, 1), "<<1,2,3>>": (7, 1, 1), "<<1,1,2>>": (7, 2, 1)},
+    "quick": {"<<1>>": (6, 2, 1), "<<1,1>>": (7, 2, 1), "<<1,2>>": (7, 2, 1), "<<1,1,1>>": (8, 2, 1), "<<1,2,3>>": (7, 1, 1), "<<1,1,2>>": (7, 1, 1)},
     "thorough": {"<<1>>": (8, 3, 2), "<<1,1>>": (9, 3, 2), "<<1,2>>": (9, 2, 2), "<<1,1,1>>": (10, 3, 2), "<<1,2,3>>": (9, 2, 1), "<<1,1,2>>": (9, 2, 2)},
 }
 EXPORT = {
     "quick": {"<<1>>": (6, 2, 1), "<<1,1>>": (7, 2, 1), "<<1,2>>": (7, 1, 1), "<<1,1,1>>": (8, 1, 1), "<<1,2,3>>": (7, 1, 1), "<<1,1,2>>": (7, 1, 1)},
     "thorough": {"<<1>>": (8, 3, 2), "<<1,1>>": (9, 2, 2), "<<1,2>>": (9, 2, 1), "<<1,1,1>>": (10, 2, 1), "<<1,2,3>>": (9, 1, 1), "<<1,1,2>>": (9, 2, 1)},
 }
+_LOCK = threading.Lock()     # the TLC stages run in threads
 DUMMY = dict(GroupOf="<<1>>", MaxSteps=0, MaxForeign=0, MaxOwner=0)
 MODEL_INVS = ["TypeOK", "C18_SameGroup", "C18_Deterministic", "C18_Idempotent"]
 TRACE_INVS = ["C18_SameGroup", "C18_Deterministic", "C18_Idempotent", "D_NoError", "D_Shape", "D_ForeignApplied", "D_Consumed"]
@@ -45,15 +48,17 @@ def model_check(ctx, shape, steps, foreign, owner):
     d = vlib.prepare_spec_dir(ctx, "mc-" + shape.strip("<>").replace(",", ""))
     mod, cfg = vlib.write_model(d, MODULE, "Grouper_mc", dict(GroupOf=shape, MaxSteps=steps, MaxForeign=foreign, MaxOwner=owner), spec="Spec",
                                 invariants=MODEL_INVS, properties=["C18_ForeignPreserved"])
-    r = vlib.tlc(ctx, d, mod, cfg, workers=4, timeout=1500, heap="4g")
+    r = vlib.tlc(ctx, d, mod, cfg, workers=2 if ctx.quick else 4, timeout=1700, heap="4g")
     if not r.ok:
         # a counterexample in the model alone is a prediction; the real code decides below
         vlib.log("model-level counterexample %s for shape %s (prediction only)\n%s" % (r.violated, shape, vlib.tail_errors(r.out)[:2000]))
-        ctx.stage("model-counterexample", shape=shape, violated=r.violated)
+        with _LOCK:
+            ctx.stage("model-counterexample", shape=shape, violated=r.violated)
         return
-    ctx.add_tlc(r)
-    ctx.stage("model-check", shape=shape, max_steps=steps, max_foreign=foreign, max_owner=owner, distinct=r.distinct, generated=r.generated,
-              depth=r.depth, wall=round(r.wall, 1))
+    with _LOCK:
+        ctx.add_tlc(r)
+        ctx.stage("model-check", shape=shape, max_steps=steps, max_foreign=foreign, max_owner=owner, distinct=r.distinct, generated=r.generated,
+                  depth=r.depth, wall=round(r.wall, 1))
 
 
 def export_schedules(ctx, shape, steps, foreign, owner):
@@ -69,91 +74,142 @@ def export_schedules(ctx, shape, steps, foreign, owner):
             edges.append((json.dumps(e["s"], sort_keys=True), e["a"], json.dumps(e["t"], sort_keys=True)))
     if not edges:
         raise vlib.Infra("TLC exported no transitions for shape %s:\n%s" % (shape, vlib.tail_errors(r.out)))
-    # breadth-first search with one worker: the first transition TLC generates leaves the initial state
+    # breadth-first search from the initial states (one per install: plain / labelled); an initial state is
+    # never the target of a transition (every action sets done, oc or fc, which never go back)
     succ = {}
+    targets = set()
     for s, a, t in edges:
         succ.setdefault(s, []).append((a, t))
-    path = {edges[0][0]: []}
-    frontier = [edges[0][0]]
+        targets.add(t)
+    roots = [s for s in succ if s not in targets]
+    if len(roots) != 2:
+        raise vlib.Infra("expected two initial states (plain, labelled install) in the schedule graph of %s, found %d" % (shape, len(roots)))
+    path = {}
+    for root in roots:
+        lab0 = json.loads(root)["ov"]["pe"]
+        path[root] = (lab0, [])
+    frontier = list(roots)
     while frontier:
         nxt = []
         for s in frontier:
             for a, t in succ.get(s, []):
                 if t not in path:
-                    path[t] = path[s] + [a]
+                    path[t] = (path[s][0], path[s][1] + [a])
                     nxt.append(t)
         frontier = nxt
+    # a schedule without an edit of the preemptibility / priority class label runs the same from either install
+    either = lambda st: not any(a["n"] == "Owner" and a["f"] in OWNER_SETS for a in st)
     scheds = set()
     for s, a, t in edges:
         if s in path:
-            scheds.add(json.dumps(path[s] + [a]))
+            st = path[s][1] + [a]
+            scheds.add((2 if either(st) else path[s][0], json.dumps(st)))
     # drop schedules that are proper prefixes of another one (every step of a run is judged)
     allp = set()
-    for sc in scheds:
+    for lab0, sc in scheds:
         st = json.loads(sc)
         for i in range(1, len(st)):
-            allp.add(json.dumps(st[:i]))
-    keep = sorted(sc for sc in scheds if sc not in allp)
-    ctx.stage("schedule-export", shape=shape, transitions=len(edges), states=len(path), schedules=len(keep), wall=round(r.wall, 1))
-    return [json.loads(k) for k in keep], len(edges)
+            pre = st[:i]
+            allp.add((2 if either(pre) else lab0, json.dumps(pre)))
+    keep = sorted(x for x in scheds if x not in allp)
+    covered = {}
+    for lab0, sc in keep:
+        for a in json.loads(sc):
+            key = a["n"] + ("/" + a["f"] if a["n"] in ("Owner", "Raced") else "")
+            covered[key] = covered.get(key, 0) + 1
+    with _LOCK:
+        ctx.stage("schedule-export", shape=shape, transitions=len(edges), states=len(path), schedules=len(keep), steps_by_kind=covered, wall=round(r.wall, 1))
+    return [(lab0, json.loads(k)) for lab0, k in keep], len(edges)
 
 
 FIELDS = ("queue", "mark", "backoff", "nodepool", "stamp")
+OWNER_SETS = ("pe", "pr")     # owner labels a derived spec field follows: state 0 absent, 1 (labelled install), 2
 
 
 def skeleton(shape):
-    """schedules that are always executed for every kind:
+    """schedules that are always executed for every kind, as (install, steps); install 0 = plain, 1 = labelled,
+    2 = either:
     A  every permutation of first reconciles, each pod reconciled twice in a row;
     B  every foreign field (incl. a scheduler annotation on the PodGroup) then a pod reconciled twice;
     C  foreign update, then a LEGITIMATE change of the workload (label / annotation added on the owner),
        then a sibling reconciled twice: the write is expected, the foreign field must survive it;
-    D  owner label / annotation added with nothing else going on, every pod reconciled twice."""
+    D  owner label / annotation added with nothing else going on, every pod reconciled twice;
+    E  the owner's preemptibility / priority class label REMOVED (labelled install), CHANGED then removed
+       (labelled install), SET then removed (plain install), every pod reconciled twice after each edit: the
+       PodGroup must equal a fresh grouping of the workload as it is then, and the repeats must be silent;
+    F  an owner edit (inherited label / annotation; preemptibility / priority class label set, changed,
+       removed), then the reconcile that carries it to the PodGroup RACED by a foreign update of each field
+       (409 Conflict), then the requeued reconcile twice and a sibling twice: the foreign value must stand and
+       the owner edit must arrive."""
     import itertools
     n = len(shape)
     R = lambda p: {"n": "Reconcile", "p": p, "g": 0, "f": ""}
+    X = lambda p, f: {"n": "Raced", "p": p, "g": shape[p - 1], "f": f}
     F = lambda g, f: {"n": "Foreign", "p": 0, "g": g, "f": f}
-    O = lambda k: {"n": "Owner", "p": 0, "g": 0, "f": k}
+    O = lambda k, v=0: {"n": "Owner", "p": 0, "g": v, "f": k}
     out = []
     for perm in itertools.permutations(range(1, n + 1)):
         st = []
         for p in perm:
             st += [R(p)] * 2
-        out.append(st)
+        out.append((2, st))
     allp = [R(q) for q in range(1, n + 1)]
+    twice = []
+    for p in range(1, n + 1):
+        twice += [R(p)] * 2
     for i, f in enumerate(FIELDS):
         p = 1 + (i % n)
-        out.append(allp + [F(shape[p - 1], f)] + [R(p)] * 2)
+        out.append((2, allp + [F(shape[p - 1], f)] + [R(p)] * 2))
     for i, f in enumerate(FIELDS):
         for k in ("l", "a"):
             p = 1 + (i % n)            # the pod whose group gets the foreign update
             q = n - (i % n)            # the sibling that is reconciled after the owner change
-            out.append(allp + [F(shape[p - 1], f), O(k), R(q), R(q), R(p), R(p)])
+            out.append((2, allp + [F(shape[p - 1], f), O(k), R(q), R(q), R(p), R(p)]))
     for k in ("l", "a"):
-        st = list(allp) + [O(k)]
-        for p in range(1, n + 1):
-            st += [R(p)] * 2
-        out.append(st)
+        out.append((2, allp + [O(k)] + twice))
+    for k in OWNER_SETS:
+        out.append((1, allp + [O(k, 0)] + twice))
+        out.append((1, allp + [O(k, 2)] + twice + [O(k, 0)] + twice))
+        out.append((0, allp + [O(k, 1)] + twice + [O(k, 0)] + twice))
+    for i, f in enumerate(FIELDS):
+        p = 1 + (i % n)
+        q = n - (i % n)
+        out.append((2, allp + [O(("l", "a")[i % 2]), X(p, f), R(p), R(p), R(q), R(q)]))
+    for i, f in enumerate(FIELDS[:3]):   # the fields the grouper masks in the spec
+        p = 1 + ((i + 1) % n)
+        q = n - ((i + 1) % n)
+        k = OWNER_SETS[i % 2]
+        out.append((1, allp + [O(k, (0, 2)[(i // 2) % 2]), X(p, f), R(p), R(p), R(q), R(q)]))
+        out.append((0, allp + [O(k, 1 + (i // 2) % 2), X(p, f), R(p), R(p), R(q), R(q)]))
     return out
 
 
 # ---- batching heuristic (NOT a verdict): which scenarios probably violate which predicate, so that
 # TLC is asked about clean scenarios in one batch and about one representative per violation class.
+def fval(f, k):
+    """Grouper!FVal"""
+    return {"queue": "fq%d" % k, "mark": "true" if k % 2 == 1 else "false", "backoff": "-1" if k == 1 else "1", "nodepool": "pool-f%d" % k,
+            "stamp": "ts%d" % k}[f]
+
+
 def triage_all(scen):
     """all (predicate, class) pairs that fail at the first step where anything fails (else [])."""
     sc = scen[0]
-    grp, exp, expsub = sc["grp"], sc["exp"], sc["expsub"]
+    grp, exp, expo, expsub = sc["grp"], sc["exp"], sc["expo"], sc["expsub"]
     done, dirty, odirty = set(), set(), set()
     fq, fn = set(), set()
-    ov = {"l": 0, "a": 0}
+    ov = {"l": 0, "a": 0, "pe": sc["ov0"], "pr": sc["ov0"]}
+    removed = set()        # owner labels that were present and are absent now
     oval = lambda k: "" if k == 0 else "v%d" % k
     ngroups = len(exp)
     prev = None
     FOR = ("queue", "mark", "backoff", "nodepool", "stamp")
-    DER = ("name", "min", "prio", "preempt", "sub", "owner", "topo")
+    DER = ("name", "min", "sub", "owner", "topo")
     for ev in scen[1:]:
         out = []
         groups, pods = ev["groups"], ev["pods"]
-        if ev.get("err"):
+        raced = ev["ev"] == "Raced" and ev["fired"] == 1
+        if ev.get("err") and not (raced and ev["cf"] == 1):
             out.append(("D_NoError", "error"))
         if ev["ev"] == "Foreign":
             dirty.add(ev["g"])
@@ -162,18 +218,28 @@ def triage_all(scen):
             if ev["f"] == "nodepool":
                 fn.add(ev["g"])
         elif ev["ev"] == "Owner":
+            if ev["f"] in OWNER_SETS:
+                (removed.add if ev["k"] == 0 else removed.discard)(ev["f"])
             ov[ev["f"]] = ev["k"]
             dirty |= set(range(1, ngroups + 1))
             odirty |= set(range(1, ngroups + 1))
         else:
             p = ev["p"]
             g = grp[p - 1]
-            idem = p in done and g not in dirty
+            idem = p in done and g not in dirty and not raced
+            if raced:
+                if ev["f"] == "queue":
+                    fq.add(g)
+                if ev["f"] == "nodepool":
+                    fn.add(g)
             if prev is not None:
                 for gi, old in enumerate(prev["groups"]):
-                    if old["ex"] and (not groups[gi]["ex"] or any(old[k] != groups[gi][k] for k in FOR)):
-                        bad = [k for k in FOR if groups[gi]["ex"] and old[k] != groups[gi][k]] or ["podgroup-gone"]
-                        out.append(("C18_ForeignPreservedTrace", "foreign-field-overwritten-" + "+".join(bad)))
+                    want = dict(old)
+                    if raced and gi + 1 == g:
+                        want[ev["f"]] = fval(ev["f"], ev["k"])
+                    if old["ex"] and (not groups[gi]["ex"] or any(want[k] != groups[gi][k] for k in FOR)):
+                        bad = [k for k in FOR if groups[gi]["ex"] and want[k] != groups[gi][k]] or ["podgroup-gone"]
+                        out.append(("C18_ForeignPreservedTrace", ("foreign-update-racing-with-the-reconcile-overwritten-" if raced else "foreign-field-overwritten-") + "+".join(bad)))
                         break
             if idem and ev["wpg"] + ev["wpod"] + ev["wother"] > 0:
                 same = prev is not None and prev["groups"] == groups and prev["pods"] == pods
@@ -185,9 +251,12 @@ def triage_all(scen):
                     out.append(("C18_Idempotent", "pod-group-name-annotation-copied-to-podgroup-on-repeat"))
                 else:
                     out.append(("C18_Idempotent", "writes-on-repeat"))
-            done.add(p)
-            dirty.discard(g)
-            odirty.discard(g)
+            if raced and ev["err"]:
+                dirty.add(g)           # 409: the reconcile did not complete
+            else:
+                done.add(p)
+                dirty.discard(g)
+                odirty.discard(g)
         if ev["extra"] != 0:
             out.append(("C18_Deterministic", "undocumented-podgroup"))
         else:
@@ -199,10 +268,14 @@ def triage_all(scen):
                         bad.append("queue")
                     if (gi + 1) not in fn and gr["nodepool"] != e["nodepool"]:
                         bad.append("nodepool")
-                    if (gi + 1) not in odirty and gr["ol"] != oval(ov["l"]):
-                        bad.append("inherited-owner-label-not-propagated")
-                    if (gi + 1) not in odirty and gr["oa"] != oval(ov["a"]):
-                        bad.append("inherited-owner-annotation-not-propagated")
+                    if (gi + 1) not in odirty:
+                        if gr["ol"] != oval(ov["l"]):
+                            bad.append("inherited-owner-label-not-propagated")
+                        if gr["oa"] != oval(ov["a"]):
+                            bad.append("inherited-owner-annotation-not-propagated")
+                        for k, fld in (("pe", "preempt"), ("pr", "prio")):
+                            if gr[fld] != expo[gi][k][ov[k]]:
+                                bad.append(fld + ("-kept-after-owner-label-removed" if k in removed else "-differs-from-fresh-grouping" if ov[k] != sc["ov0"] else ""))
                     if bad:
                         out.append(("C18_Deterministic", "derived-" + "+".join(bad)))
                         break
@@ -314,29 +387,42 @@ def run(ctx):
     ctx.cov["kinds_covered"] = cat["entries"]
     ctx.cov["hub_gvks_covered"] = cat["hub_keys"]
     tier = "quick" if ctx.quick else "thorough"
-    for shape, (st, fo, ow) in SHAPES[tier].items():
-        model_check(ctx, shape, st, fo, ow)
+    t0 = time.time()
+    # TLC runs are independent of each other: three at a time (2 workers each in the quick tier)
+    exported = {}
+
+    def export(shape, st, fo, ow):
+        exported[shape] = export_schedules(ctx, shape, st, fo, ow)
+
+    jobs = [(lambda a=(shape,) + b: model_check(ctx, *a)) for shape, b in SHAPES[tier].items()]
+    jobs += [(lambda a=(shape,) + b: export(*a)) for shape, b in EXPORT[tier].items()]
+    width = 3 if ctx.quick else 2
+    for i in range(0, len(jobs), width):
+        vlib.run_parallel(jobs[i:i + width])
+    t1 = time.time()
     sched_path = os.path.join(ctx.scratch, "schedules.ndjson")
     total_edges = 0
     with open(sched_path, "w") as f:
-        for shape, (st, fo, ow) in EXPORT[tier].items():
-            scheds, ne = export_schedules(ctx, shape, st, fo, ow)
+        for shape in EXPORT[tier]:
+            scheds, ne = exported[shape]
             total_edges += ne
             sl = shape_list(shape)
-            for s in skeleton(sl):
-                f.write(json.dumps({"shape": sl, "steps": s, "skeleton": 1}) + "\n")
-            for s in scheds:
-                f.write(json.dumps({"shape": sl, "steps": s}) + "\n")
+            for lab0, s in skeleton(sl):
+                f.write(json.dumps({"shape": sl, "steps": s, "skeleton": 1, "lab": lab0}) + "\n")
+            for lab0, s in scheds:
+                f.write(json.dumps({"shape": sl, "steps": s, "lab": lab0}) + "\n")
     ctx.cov["schedule_graph_transitions"] = total_edges
     trace = os.path.join(ctx.scratch, "trace.ndjson")
     args = ["-schedules", sched_path, "-out", trace, "-seed", str(ctx.seed)]
     args += ["-cap", "6", "-random", "1", "-rlen", "8"] if ctx.quick else ["-cap", "120", "-random", "15", "-rlen", "10"]
     p = vlib.run_harness(binary, args, timeout=3000)
     out = json.loads(p.stdout.strip().splitlines()[-1])
+    t2 = time.time()
     ctx.stage("real-run", **out)
     ctx.cov["rule"] = ("one case = (catalogue kind, replica count 1..3, plain|labelled, schedule) executed on the real PodReconciler in a fresh fake "
                        "store; schedules = skeleton (all first-reconcile orders with immediate repeats; each foreign field then a repeated "
-                       "reconcile) + TLC-exported transition-cover schedules (quick: seeded sample per kind) + seeded random schedules; "
+                       "reconcile; owner label / annotation added; preemptibility / priority class label set, changed, removed; each of "
+                       "these followed by a reconcile raced by a foreign update of each field) + TLC-exported transition-cover schedules (quick: seeded sample per kind) + seeded random schedules; "
                        "non-trivial = at least two steps; distinct by (kind, n, variant, schedule)")
     ctx.assumptions += [
         "the API server is the controller-runtime fake client; typed Get/List results carry their GroupVersionKind as the manager's cache-backed client does",
@@ -347,8 +433,11 @@ def run(ctx):
         "a merge patch with an empty body is not counted as a mutating call",
         "OwnerChange = a label / annotation added to (then changed on) the object the PodGroups inherit metadata from (top owner; CronJob: the Job; Knative: the Revision; Grove: the PodGang; skip-top-owner kinds: the skipped owner); not run for kinds where the pod itself is that object (bare Pod, Spark driver): an annotated orphan pod is skipped by the reconciler by design",
         "the foreign annotation is kai.scheduler/last-start-timestamp written on the PodGroup",
+        "OwnerSet = the kai.scheduler/preemptibility (non-preemptible | preemptible) or priorityClassName (build | inference) label of the same object set, changed or removed; the expected PodGroup afterwards is the catalogue's documented fresh grouping for that label state (catalogue.go ownerExpectations: plain install for a removed label, labelled install for the labelled value, the label's value where the labelled install shows the kind follows the label); the queue label is not edited: spec.queue and the queue label belong to other actors after creation (handler.go ignoreFields), they are foreign fields here",
+        "ReconcileRaced = the foreign update is applied inside the fake client's Update interceptor when the reconciler updates that PodGroup (after its Get), then the Update is passed on to the fake store, whose resourceVersion check answers 409 Conflict; a reconcile that returns this conflict is not complete (the work queue retries it: a later Reconcile step of the schedule) and the error is expected; a raced step whose reconcile has nothing to write (kind ignores the edited label) is an ordinary reconcile",
     ]
     validate(ctx, trace)
+    ctx.stage("wall", model_and_export=round(t1 - t0, 1), real_run=round(t2 - t1, 1), trace_validation=round(time.time() - t2, 1))
     ctx.cov["exhaustive"] = False  # exhaustive in the model; the real code runs a per-kind sample of the transition cover
 
 
